@@ -7,12 +7,16 @@
 (*   state res:     [k |-> "None"] | [k |-> "state", ts, x2, y2, q, exact] | [k |-> "exc", name]          *)
 (*   uncertain states: obs = <<<<x2, y2, o8, flag>>, ...>>, flag = 1 iff the returned region covers the   *)
 (*                  shape placed at that obligation pose (decided by shapely in the harness)              *)
+(*   history cases: events recorded AFTER the one modification carry it as field m; the expected answers  *)
+(*                  are those of Modify(o, m) / ModifyS(S, m) - the contract holds for the current data   *)
 EXTENDS Occupancy, Json, IOUtils
 Traces == ndJsonDeserialize(IOEnv.TRACE_FILE)
 
 VARIABLES tid, l, err
 tvars == <<tid, l, err>>
 
+EffO(e) == IF "m" \in DOMAIN e /\ Targets(e.o, e.m) THEN Modify(e.o, e.m) ELSE e.o
+EffS(e) == IF "m" \in DOMAIN e THEN ModifyS(e.S, e.m) ELSE e.S
 Pt(p) == <<p[1], p[2]>>
 PtSet(vs) == {Pt(vs[i]) : i \in DOMAIN vs}
 SameRegion(r, x) ==            \* r logged, x = Placed(...)
@@ -32,13 +36,13 @@ WrongRegionClause(o, t, r) ==  \* the region is there but it is not the expected
          [] src.k = "SetOcc" -> "C04.SetBased"
          [] src.k = "Env"    -> "C04.Source/environment"
          [] OTHER ->
-              IF s.kind \in PMKinds /\ \E q \in 0..3 : SameRegion(r, Placed(o.shape, <<s.x, s.y, q>>)) THEN "C04.PointMassHeading"
-              ELSE IF \E s2 \in AllStates(o) \ {s} : s2.unc = "none" /\ SameRegion(r, Placed(o.shape, PoseOf(s2)))
+              IF s.kind \in PMKinds /\ \E q \in 0..3 : SameRegion(r, Placed(PredShape(o), <<s.x, s.y, q>>)) THEN "C04.PointMassHeading"
+              ELSE IF \E s2 \in AllStates(o) \ {s} : s2.unc = "none" /\ SameRegion(r, Placed(PredShape(o), PoseOf(s2)))
                    THEN "C04.Source/" \o (IF src.k = "Initial" THEN "initial" ELSE "trajectory")     \* paired with another state
                    ELSE "C04.Placed"
 
 ClauseOcc(e) ==
-    LET o == e.o  t == e.t  r == e.res
+    LET o == EffO(e)  t == e.t  r == e.res
     IN IF r.k = "exc" THEN "C04.Total/occupancy_at_time"
        ELSE IF Source(o, t).k = "None" THEN (IF r.k = "None" THEN "" ELSE "C04.Horizon/non-None-outside")
        ELSE IF r.k = "None" THEN "C04.Horizon/None-inside"
@@ -49,7 +53,7 @@ ClauseOcc(e) ==
        ELSE WrongRegionClause(o, t, r)
 
 ClauseState(e) ==
-    LET o == e.o  t == e.t  r == e.res  x == StateAt(o, t)
+    LET o == EffO(e)  t == e.t  r == e.res  x == StateAt(o, t)
     IN IF r.k = "exc" THEN "C04.Total/state_at_time"
        ELSE IF x.k = "None" THEN (IF r.k = "None" THEN "" ELSE "C04.Horizon/state-outside")
        ELSE IF r.k = "None" THEN "C04.Horizon/no-state-inside"
@@ -57,25 +61,26 @@ ClauseState(e) ==
 
 ClauseScenario(e) ==
     IF e.res.k = "exc" THEN "C04.Total/" \o e.op
-    ELSE CASE e.op = "occupancies_at_time_step" ->
-                (LET want == {p[2] : p \in OccAt(e.S, e.t, e.role)}  got == e.res.occs
-                 IN IF /\ Len(got) = Cardinality(OccAt(e.S, e.t, e.role))
+    ELSE LET ES == EffS(e) IN
+         CASE e.op = "occupancies_at_time_step" ->
+                (LET want == {p[2] : p \in OccAt(ES, e.t, e.role)}  got == e.res.occs
+                 IN IF /\ Len(got) = Cardinality(OccAt(ES, e.t, e.role))
                        /\ \A i \in DOMAIN got : \E x \in want : SameRegion(got[i], x)
                        /\ \A x \in want : \E i \in DOMAIN got : SameRegion(got[i], x)
                     THEN "" ELSE "C04.Scenario/occupancies_at_time_step")
            [] e.op = "obstacle_states_at_time_step" ->
-                (LET want == StatesAt(e.S, e.t)  got == e.res.states
+                (LET want == StatesAt(ES, e.t)  got == e.res.states
                  IN IF /\ Len(got) = Cardinality(want)
                        /\ {got[i].id : i \in DOMAIN got} = {p[1] : p \in want}
                        /\ \A i \in DOMAIN got : \A p \in want : p[1] = got[i].id => StateMatches(got[i], p[2])
                     THEN "" ELSE "C04.Scenario/obstacle_states_at_time_step")
            [] e.op = "obstacles_by_role_and_type" ->
-                IF Len(e.res.ids) = Cardinality(Range(e.res.ids)) /\ Range(e.res.ids) = ByRoleType(e.S, e.role, e.type)
+                IF Len(e.res.ids) = Cardinality(Range(e.res.ids)) /\ Range(e.res.ids) = ByRoleType(ES, e.role, e.type)
                 THEN "" ELSE "C04.Scenario/obstacles_by_role_and_type"
            [] e.op = "obstacles_by_position_intervals" ->
                 IF /\ Len(e.res.ids) = Cardinality(Range(e.res.ids))
-                   /\ ByPosition(e.S, e.ix, e.iy, Range(e.roles), e.t) \subseteq Range(e.res.ids)
-                   /\ Range(e.res.ids) \subseteq ByPositionMay(e.S, e.ix, e.iy, Range(e.roles), e.t)
+                   /\ ByPosition(ES, e.ix, e.iy, Range(e.roles), e.t) \subseteq Range(e.res.ids)
+                   /\ Range(e.res.ids) \subseteq ByPositionMay(ES, e.ix, e.iy, Range(e.roles), e.t)
                 THEN "" ELSE "C04.Scenario/obstacles_by_position_intervals"
 
 Clause(e) ==
